@@ -674,6 +674,11 @@ func (s *syncer) headersStage() *outcome {
 				}
 				chunk[pos] = h
 			default:
+				if strings.HasPrefix(kind, "witness") && hh+1+uint32(pos) == s.sc.Trusted {
+					// the trusted header is identified by its hash alone and its
+					// predecessor is unknown: nothing to check its witness against
+					continue
+				}
 				m := s.mutateHeader(hh+1+uint32(pos), kind)
 				if m == nil {
 					continue
@@ -789,9 +794,9 @@ func (s *syncer) mptStage() *outcome {
 				}
 				err, pv := guard(func() error { return s.mod.AddMPTNodes(batch) })
 				if pv != nil {
-					if kind == "empty-node" && len(batch) == 1 {
+					if strings.Contains(fmt.Sprint(pv), "hash of an EmptyNode") && batch[0][0] == byte(mpt.EmptyT) {
 						// the panic is raised before the module touches anything: go on
-						s.softViolation("sync:AddMPTNodes-panics:peer-sends-an-EmptyNode:"+normMsg(pv), fmt.Sprintf("AddMPTNodes([][]byte{{0x04}}): panic: %v", pv))
+						s.softViolation("sync:AddMPTNodes-panics:peer-sends-an-EmptyNode:"+normMsg(pv), fmt.Sprintf("AddMPTNodes with a node whose bytes are %x (type EmptyT): panic: %v", batch[0], pv))
 						continue
 					}
 					return &outcome{"sync:AddMPTNodes-panics:wrong-data:" + kind + ":" + normMsg(pv), fmt.Sprint(pv)}
